@@ -1,26 +1,8 @@
-"""Per-property configuration of the check driver (which translators, what the evidence says)."""
+"""Per-property configuration of the check driver: one JSON file per claimed property in propcfg/."""
+import json, os
 
-PROPS = {
-    "C12": {
-        "gen": [],
-        "canon": False,
-        "level_text": "Theorems over ALL NaN-free values (any nesting/size): ==, Hash, Ord, PartialOrd of the model are mutually "
-                      "consistent (reflexive/symmetric/transitive ==, equal => same hasher writes, antisymmetric/transitive cmp, "
-                      "cmp=Equal <=> ==, partial_cmp=Some(o) => cmp=o).  The model is tied to val/*.rs by differential execution "
-                      "on near-collision pairs/triples; the same laws are checked directly on the real impls.",
-        "level_note": "Trusted: Lean kernel + 3 standard axioms; harness; derive semantics of rustc (lexicographic, variant order); "
-                      "IEEE order = sign-magnitude key order for non-NaN; Unit identified by its symbol.",
-        "technique": "Lean 4 proof by structural induction over a mutual inductive value type (point-wise total-preorder "
-                     "predicate closed under lexicographic/Option/variant constructions) + differential correspondence",
-        "rule": "cases are triples (a,b,c) of Values: (1) a fixed pool of near-collisions (+0/-0, same magnitude with "
-                "different/absent unit, Refs differing in dis, equal instants in different zones, same payload under "
-                "different kinds, dicts differing in one key or value, list prefixes) crossed pair-wise, (2) random values "
-                "of all 18 kinds (depth<=3) with their structural mutants.  A case is non-trivial when it parses to three "
-                "values; distinct = distinct by hash of the VX text.",
-        "assumptions": [
-            "IEEE-754 order of non-NaN doubles equals the order of their sign-magnitude keys (validated on every pair run)",
-            "a Unit is determined by its symbol (table theorem of C15)",
-            "String order = code point order (UTF-8 is order preserving)",
-        ],
-    },
-}
+_D = os.path.join(os.path.dirname(os.path.abspath(__file__)), "propcfg")
+PROPS = {}
+for _f in sorted(os.listdir(_D)):
+    if _f.endswith(".json"):
+        PROPS[_f[:-5]] = json.load(open(os.path.join(_D, _f)))
